@@ -33,7 +33,9 @@ MOD = {"c": "C", "cpp": "Cpp", "py": "Py", "html": "Html"}
 # source classes (Model/Tpl.lean `Src`)
 TIME, ABSPATH, PLATFORM, HASHORDER, RANDOM, SIBLINGS = "time", "absPath", "platform", "hashOrder", "random", "siblings"
 PS_UNIQ, PS_MEMO, PS_TPLCACHE, PS_MODELCACHE = "psUniqueName", "psMemo", "psTemplateCache", "psModelCache"
-ALL_SRC = [TIME, ABSPATH, PLATFORM, HASHORDER, RANDOM, SIBLINGS, PS_UNIQ, PS_MEMO, PS_TPLCACHE, PS_MODELCACHE]
+PS_FOLD, PS_SHARED = "psCompileFold", "psSharedMutable"
+ALL_SRC = [TIME, ABSPATH, PLATFORM, HASHORDER, RANDOM, SIBLINGS, PS_UNIQ, PS_MEMO, PS_TPLCACHE, PS_MODELCACHE, PS_FOLD, PS_SHARED]
+MUTATORS = {"append", "extend", "insert", "remove", "pop", "clear", "update", "add", "discard", "setdefault", "sort", "reverse", "popitem"}
 
 
 class TieBroken(Exception):
@@ -128,6 +130,7 @@ class Scanner:
         self.index = {}       # simple name -> list of (module, qualname, ast.FunctionDef)
         self.memo = {}
         pkg = repo_src / "nunavut"
+        self.memoised = set()
         for f in sorted(pkg.rglob("*.py")):
             rel = f.relative_to(repo_src)
             if "jinja2" in rel.parts or "markupsafe" in rel.parts:
@@ -140,6 +143,10 @@ class Scanner:
             for node in ast.walk(tree):
                 if isinstance(node, (ast.FunctionDef, ast.AsyncFunctionDef)):
                     self.index.setdefault(node.name, []).append((mod, node))
+                    for d in node.decorator_list:
+                        dn = self._dotted(d.func if isinstance(d, ast.Call) else d) or ""
+                        if dn.endswith("lru_cache") or dn.endswith(".cache") or dn == "cache" or dn.endswith("cached_property"):
+                            self.memoised.add(node.name)
 
     # names too generic to follow by name (would connect everything with everything)
     STOP = {"__init__", "get", "items", "keys", "values", "update", "format", "join", "append", "add", "write", "read",
@@ -170,6 +177,42 @@ class Scanner:
             if isinstance(node, ast.Call) and isinstance(node.func, ast.Name) and node.func.id in ("sorted", "len", "min", "max", "sum", "any", "all", "frozenset", "set"):
                 for a in node.args:
                     sorted_args.add(id(a))
+        # objects handed out by a memoised function / cached property are shared: any mutation of them is process state
+        shared = set()
+        for node in ast.walk(fn):
+            if isinstance(node, ast.Assign) and len(node.targets) == 1 and isinstance(node.targets[0], ast.Name):
+                v = node.value
+                callee = None
+                if isinstance(v, ast.Call):
+                    callee = (self._dotted(v.func) or "").rsplit(".", 1)[-1] or (v.func.attr if isinstance(v.func, ast.Attribute) else None)
+                elif isinstance(v, ast.Attribute):
+                    callee = v.attr
+                if callee in self.memoised:
+                    shared.add(node.targets[0].id)
+
+        def is_shared(e):
+            if isinstance(e, ast.Name) and e.id in shared:
+                return True
+            if isinstance(e, ast.Call):
+                c = (self._dotted(e.func) or "").rsplit(".", 1)[-1] or (e.func.attr if isinstance(e.func, ast.Attribute) else "")
+                return c in self.memoised
+            if isinstance(e, ast.Attribute) and e.attr in self.memoised and not isinstance(e.ctx, ast.Store):
+                return True
+            return False
+        for node in ast.walk(fn):
+            tg = []
+            if isinstance(node, ast.Assign):
+                tg = node.targets
+            elif isinstance(node, (ast.AugAssign, ast.AnnAssign)):
+                tg = [node.target]
+            for t in tg:
+                if isinstance(t, (ast.Attribute, ast.Subscript)) and is_shared(t.value):
+                    classes.add(PS_SHARED); notes.append(f"mutates an object handed out by a memoised function (line {t.lineno})")
+            if isinstance(node, ast.Call):
+                if isinstance(node.func, ast.Attribute) and node.func.attr in MUTATORS and is_shared(node.func.value):
+                    classes.add(PS_SHARED); notes.append(f"calls .{node.func.attr}() on an object handed out by a memoised function (line {node.lineno})")
+                if (self._dotted(node.func) or "") in ("setattr", "delattr") and node.args and is_shared(node.args[0]):
+                    classes.add(PS_SHARED); notes.append(f"setattr on an object handed out by a memoised function (line {node.lineno})")
         for node in ast.walk(fn):
             if isinstance(node, (ast.FunctionDef, ast.AsyncFunctionDef)) and node is not fn:
                 for d in node.decorator_list:
@@ -378,6 +421,17 @@ def source_facts(repo_src: pathlib.Path):
 
     # 4. the line post-processors are reset per file
     facts["line_pp_reset_per_file"] = line_pp_reset_per_file(repo_src)
+
+    # 6. templates are compiled lazily: no generator constructor asks the environment for a template
+    lazy = True
+    jt = ast.parse((repo_src / "nunavut/jinja/__init__.py").read_text(encoding="utf-8"))
+    for node in ast.walk(jt):
+        if isinstance(node, ast.FunctionDef) and node.name in ("__init__", "__new__", "__post_init__"):
+            for sub in ast.walk(node):
+                if isinstance(sub, ast.Call) and isinstance(sub.func, ast.Attribute) and sub.func.attr in (
+                        "get_template", "select_template", "get_or_select_template", "compile_templates", "from_string", "compile", "join_path"):
+                    lazy = False
+    facts["templates_compiled_lazily"] = lazy
 
     # 5. cached_property keeps its value per instance: __get__ stores into instance.__dict__ and assigns nothing on the descriptor
     fn = find_def("nunavut/_utilities.py", "__get__", "cached_property")
@@ -608,6 +662,26 @@ class LangConv:
                     added |= a2
                 else:
                     raise TieBroken(f"{self.lang}:{scope[0]}:{node.lineno}: map({fname!r}) names an unknown filter")
+            if PS_UNIQ in added:
+                # a stateful filter that Jinja may constant-fold: not marked volatile (contextfilter) and all arguments constant.
+                # It is then evaluated when the template is COMPILED.  Tolerable only if templates are compiled lazily (at generation
+                # time, after the per-file reset) and the leaf is not in a root template (those are compiled before the reset).
+                fobj = self.envs[kind].filters[node.name]
+                seenf = 0
+                volatile = False
+                while fobj is not None and seenf < 8:
+                    seenf += 1
+                    if getattr(fobj, "contextfilter", False) or getattr(fobj, "evalcontextfilter", False):
+                        volatile = True
+                    fobj = getattr(fobj, "func", None) or getattr(fobj, "__wrapped__", None)
+                const_args = isinstance(node.node, n.Const) and all(isinstance(a, n.Const) for a in node.args) and \
+                    all(isinstance(k.value, n.Const) for k in node.kwargs) and node.dyn_args is None and node.dyn_kwargs is None
+                if const_args and not volatile:
+                    added |= {PS_FOLD}
+                    root_files = {r for r in self.root_template_names}
+                    if self.facts["templates_compiled_lazily"] and scope[0] not in root_files:
+                        removed |= {PS_FOLD}
+                    notes = list(notes) + [f"{node.name}: constant-foldable (not volatile) yet stateful"]
             if PS_UNIQ in added and self.facts["resets_unique_names_per_file"]:
                 removed |= {PS_UNIQ}
             if PS_MEMO in added:
@@ -893,6 +967,11 @@ class LangConv:
                 imps.append(i)
             self.imports_of[key] = imps
         self.all_templates = sorted(seen)
+        import pydsdl as _pydsdl
+        _classes, _todo = {"Any", "Namespace"}, [_pydsdl.SerializableType]
+        while _todo:
+            _c = _todo.pop(); _classes.add(_c.__name__); _todo += _c.__subclasses__()
+        self.root_template_names = {nm for (k, nm) in self.all_templates if k == "type" and nm.rsplit(".", 1)[0] in _classes}
         # macro visibility per file (own macros + imported names + imported modules + macros of included-from parents are
         # not visible in Jinja; macros of a parent template are not visible in the child either)
         self.macros_visible, self.modules_visible = {}, {}
@@ -1291,6 +1370,8 @@ def emit_top(facts) -> str:
             f"def linePPResetPerFile : Bool := {b(facts['line_pp_reset_per_file'])}",
             "/-- `cached_property.__get__` stores the value in `instance.__dict__` and nothing on the descriptor. -/",
             f"def cachedPropertyPerInstance : Bool := {b(facts['cached_property_per_instance'])}",
+            "/-- No generator constructor compiles templates (`get_template` & co. only at generation time). -/",
+            f"def templatesCompiledLazily : Bool := {b(facts['templates_compiled_lazily'])}",
             "end NunavutVerif.Gen.TplFlows", ""]
     return "\n".join(out)
 
